@@ -69,6 +69,10 @@ func readSrc(via string, name int) string {
 		x = "(cond false 1 true " + g + ")"
 	case "apply":
 		x = "(first (map (fn [i] " + g + ") [1]))"
+	case "macrocall":
+		// the name is (re)defined as a MACRO that ignores its operand: the operand is evaluated only if the name
+		// is, for a moment, bound to something that is not (yet) the macro -- a definition seen in part
+		return "(try (" + g + " (throw :torn)) (catch e (if (= e :torn) -1 0)))"
 	}
 	return "(try " + x + " (catch e 0))"
 }
@@ -78,6 +82,8 @@ func readSrc(via string, name int) string {
 func writeSrc(name, k int, via string) string {
 	g := fmt.Sprintf("g%d", name)
 	switch via {
+	case "defmacro":
+		return fmt.Sprintf("(defmacro %s (fn [x] [%d %d %d %d]))", g, k, k, k, k)
 	case "literal":
 		return fmt.Sprintf("(def %s [%d %d %d %d])", g, k, k, k, k)
 	case "computed":
@@ -128,10 +134,18 @@ func runRWScenario(rec *rwRecorder, rnd *rand.Rand, names, readers, writesPer, r
 	}
 	wvias := []string{"literal", "computed", "do"}
 	var wops [][]op
+	// some names are macros: always defined with defmacro, always read by calling them
+	isMacro := make([]bool, names+1)
+	for n := 1; n <= names; n++ {
+		isMacro[n] = rnd.Intn(3) == 0
+	}
 	for n := 1; n <= names; n++ {
 		var s []op
 		for k := 1; k <= writesPer; k++ {
 			via := wvias[rnd.Intn(len(wvias))]
+			if isMacro[n] {
+				via = "defmacro"
+			}
 			ast, e := lisp.READ(writeSrc(n, k, via), nil, ns)
 			if e != nil {
 				return e
@@ -146,6 +160,9 @@ func runRWScenario(rec *rwRecorder, rnd *rand.Rand, names, readers, writesPer, r
 		for i := 0; i < readsPer; i++ {
 			n := 1 + rnd.Intn(names)
 			via := readVias[rnd.Intn(len(readVias))]
+			if isMacro[n] {
+				via = "macrocall"
+			}
 			ast, e := lisp.READ(readSrc(via, n), nil, ns)
 			if e != nil {
 				return e
@@ -157,12 +174,27 @@ func runRWScenario(rec *rwRecorder, rnd *rand.Rand, names, readers, writesPer, r
 	var wg sync.WaitGroup
 	start := make(chan struct{})
 	errs := make(chan error, names+readers)
+	// A macro name gets its first definition BEFORE the concurrent phase: EVAL looks a call's head up twice (is it a
+	// macro? then its value), and a name that goes from unbound to macro between the two is called like a function --
+	// each lookup saw "nothing" resp. "the entire definition", which the property allows.  A REdefinition replaces a
+	// macro by a macro: every lookup must find a macro.
+	first := make([]int, len(wops))
+	for w := range wops {
+		if o := wops[w][0]; o.via == "defmacro" {
+			rec.emit(RWEvent{Ev: "wb", Tid: w + 1, Name: o.name, Val: o.k, Via: o.via})
+			if _, e := lisp.EVAL(ctx, o.ast, ns); e != nil {
+				return fmt.Errorf("writer: %v", e)
+			}
+			rec.emit(RWEvent{Ev: "we", Tid: w + 1, Name: o.name, Val: o.k, Via: o.via})
+			first[w] = 1
+		}
+	}
 	for w := range wops {
 		wg.Add(1)
 		go func(w int) {
 			defer wg.Done()
 			<-start
-			for _, o := range wops[w] {
+			for _, o := range wops[w][first[w]:] {
 				rec.emit(RWEvent{Ev: "wb", Tid: w + 1, Name: o.name, Val: o.k, Via: o.via})
 				if _, e := lisp.EVAL(ctx, o.ast, ns); e != nil {
 					errs <- fmt.Errorf("writer: %v", e)
